@@ -26,8 +26,25 @@ def grids(ctx, scale):
                 | {int(10 ** (rng.random() * 9)) or 1 for _ in range(6 * scale)})
     ps = sorted({0.0, 1.0, 0.5, 0.01, 0.99, 0.1, 0.9, 1e-9, 1 - 1e-9, 0.25, 1 / 3} | {rng.random() for _ in range(4 * scale)})
     cs = sorted({0.5, 0.8, 0.9, 0.95, 0.99, 0.999, 1e-12, 1 - 1e-12, 0.01, 0.3} | {rng.random() for _ in range(4 * scale)})
-    alphas = sorted({k / 1024 for k in range(1, 1024)} | {1e-12, 1e-9, 1e-6, 1 - 1e-6, 1 - 1e-12} | {rng.random() for _ in range(200 * scale)})
+    alphas = sorted({k / 1024 for k in range(1, 1024)} | {1e-12, 1e-9, 1e-6, 1 - 1e-6, 1 - 1e-12} | {rng.random() for _ in range(200 * scale)}
+                    # the far tails: every binade boundary region down to the smallest positive float, and next to 1
+                    | {10.0 ** -k for k in (13, 14, 15, 16, 17, 18, 20, 25, 30, 50, 80, 100, 113, 120, 150, 200, 250, 300, 307, 308, 310, 320)}
+                    | {2.0 ** -k for k in (40, 50, 51, 52, 53, 54, 60, 64, 100, 500, 1000, 1022, 1023, 1050, 1074)}
+                    | {2.220446049250313e-16, 1.1102230246251565e-16, 5e-324, 1 - 2.0 ** -53, 1 - 2.0 ** -52, 1 - 2.0 ** -51, 1 - 2.0 ** -40, 1 - 1e-15}
+                    | {10.0 ** -(rng.random() * 320) for _ in range(20 * scale)})
     return ns, ps, cs, alphas
+
+
+def upper_quantile(a):
+    """x with P(Z > x) = a for the standard normal, by bisection on erfc (valid down to a ~ 1e-300)"""
+    lo, hi = 0.0, 40.0
+    for _ in range(200):
+        mid = (lo + hi) / 2
+        if 0.5 * math.erfc(mid / math.sqrt(2)) > a:
+            lo = mid
+        else:
+            hi = mid
+    return lo
 
 
 def high_precision_interval(n, p, z, method):
@@ -109,7 +126,7 @@ def run(ctx, with_model=True):
                     ctx.tie_break("probit-bits", {"alpha": a, "impl": z, "model_bits": ans})
             if not (z >= 0):
                 ctx.violation(f"probit({a!r}) = {z!r} is negative", {"alpha": a, "z": z})
-            q = nd.inv_cdf(1 - a) if 0 < 1 - a < 1 else None
+            q = nd.inv_cdf(1 - a) if 0 < 1 - a < 1 and a > 1e-10 else upper_quantile(a) if 1e-300 <= a <= 1e-10 else None
             if a <= 0.5 and q is not None and z < q - 1e-12 * max(1, abs(q)):
                 ctx.violation(f"probit({a!r}) = {z!r} is smaller than the normal quantile {q!r}", {"alpha": a, "z": z, "quantile": q})
             # symmetry where 1-a is exact
